@@ -7,6 +7,7 @@ Open Scope Z_scope.
 Definition run_C43 (v : val) : val :=
   match v with
   | VB pl => let '(out, good) := remove_padding pl in VL [VB out; VZ good]
+  | VL [VZ 2; VZ vers; VZ clen; VB full] => vbool (cbc_record_ok vers clen 20 full)
   | _ => VErr 0
   end.
 Definition agree_C43 (i o : val) : bool := val_eqb (run_C43 i) o.
@@ -14,6 +15,7 @@ Definition agree_C43 (i o : val) : bool := val_eqb (run_C43 i) o.
 Definition prop_C43 (i o : val) : bool :=
   match i with
   | VB pl => let '(out, good) := spec_remove pl in val_eqb o (VL [VB out; VZ good])
+  | VL [VZ 2; VZ vers; VZ clen; VB full] => val_eqb o (vbool (spec_record_ok vers clen 20 full))
   | _ => false
   end.
 Definition kf_C43 (i : val) : Z := 0.
